@@ -87,6 +87,12 @@ impl FilterBodyAction {
         self.chain.is_empty()
     }
 
+    /// Read-only: has the filter entered its pass-through error state?
+    #[cfg(redirectionio_verif)]
+    pub fn verif_in_error(&self) -> bool {
+        self.in_error
+    }
+
     pub fn filter(&mut self, data: Vec<u8>, unit_trace: Option<&mut UnitTrace>) -> Vec<u8> {
         if self.in_error {
             return data;
